@@ -11,13 +11,23 @@ from ..core import Prop
 
 def gen_prog(rng: random.Random, *, crash: float = 0.08) -> dict[str, Any]:
     prog: list[dict[str, Any]] = []
-    n_cb = n_task = n_res = 0
+    n_cb = n_task = n_res = n_late = 0
     for _ in range(rng.randint(1, 9)):
         r = rng.random()
         if r < 0.4:
             n_cb += 1
             prog.append({"op": "reg", "id": n_cb, "raises": rng.randrange(3) if rng.random() < 0.15 else None,
                          "async": rng.random() < 0.4, "via": rng.choice(["direct", "direct", "resource"])})
+            if rng.random() < 0.15:
+                # this callback starts a service task of its own while the owner is being torn down
+                n_late += 1
+                a = rng.random()
+                action: Any = "cancel" if a < 0.5 else "none" if a < 0.65 else \
+                    {"raises": rng.random() < 0.3, "async": rng.random() < 0.5, "kind": rng.choice(["fn", "method", "obj"])}
+                beh: dict[str, Any] = {"ends": rng.choice([0, 1, 3]), "exc": None} if action == "none" or rng.random() < 0.3 \
+                    else {"until": rng.choice([0, 1, 2])}
+                prog[-1]["async"] = True
+                prog[-1]["late"] = {"tid": 50 + n_late, "action": action, "beh": beh, "close_ticks": rng.choice([0, 0, 1])}
         elif r < 0.55:
             n_res += 1
             prog.append({"op": "res", "v": n_res})
@@ -27,7 +37,7 @@ def gen_prog(rng: random.Random, *, crash: float = 0.08) -> dict[str, Any]:
             n_task += 1
             a = rng.random()
             if a < 0.4:
-                action: Any = "cancel"
+                action = "cancel"
             elif a < 0.6:
                 action = "none"
             else:
@@ -35,7 +45,7 @@ def gen_prog(rng: random.Random, *, crash: float = 0.08) -> dict[str, Any]:
                 action = {"raises": rng.random() < 0.3, "async": rng.random() < 0.5,
                           "kind": rng.choice(["fn", "fn", "partial", "method", "obj", "falsyobj"])}
             if action == "none":
-                beh: dict[str, Any] = {"ends": rng.choice([0, 1, 3, 6, 9]), "exc": None}
+                beh = {"ends": rng.choice([0, 1, 3, 6, 9]), "exc": None}
             elif rng.random() < 0.3:
                 beh = {"ends": rng.choice([0, 1, 3, 6, 9]), "exc": None}
             else:
@@ -68,6 +78,9 @@ def expand(prog: list[dict[str, Any]]) -> list[dict[str, Any]]:
         if st["op"] == "start" and st.get("pre_reg") is not None:
             out.append({"op": "reg", "id": st["pre_reg"], "raises": None})
         out.append(st)
+        if st["op"] == "reg" and st.get("late") is not None:
+            # a callback that starts a service task during the teardown: the callback, and a task started late
+            out.append({"op": "start", "late": True, "cb": st["id"], **st["late"]})
     return out
 
 
@@ -79,7 +92,8 @@ class C08(Prop):
     thorough_cases = 20000
     rule = ("0-4 service tasks interleaved with 0-6 teardown callbacks (direct / add_resource(teardown_callback=), sync / "
             "async, some raising) and resources, in root and nested contexts; teardown_action cancel / None / sync or "
-            "async callable (raising or not); task behaviours: ends by itself after 0-9 ticks, runs until stopped, "
+            "async callable (raising or not); 15% of the callbacks start a service task of their own while the owner is "
+            "being torn down; task behaviours: ends by itself after 0-9 ticks, runs until stopped, "
             "needs 0-3 ticks of shielded clean-up after cancellation, crashes; block left after 0-7 ticks; both "
             "back-ends. Non-trivial: a callback registered before and one after some task, and that task still running "
             "when teardown begins")
@@ -143,7 +157,8 @@ class C08(Prop):
             closed = pos(["taskClosed", s["tid"]])
             if closed is None or (bl is not None and closed > bl):
                 fails.append(f"service task {s['tid']} (or its context) was still running after the block had been left")
-            for e in order[:k]:
+            # (a task started by a teardown callback: everything registered before *that callback* is earlier)
+            for e in order[:k - 1] if s.get("late") else order[:k]:
                 if e["op"] == "reg":
                     c = pos(["cbRun", e["id"]])
                     if c is not None and (closed is None or closed > c):
@@ -162,7 +177,7 @@ class C08(Prop):
             elif called:
                 fails.append(f"a teardown callable was called for task {s['tid']} which has none")
             # snapshot of the owner's resources at start
-            want = [x["v"] for x in prog[:prog.index(s)] if x["op"] == "res"]
+            want = [x["v"] for x in (prog if s.get("late") else prog[:prog.index(s)]) if x["op"] == "res"]
             for l in labels:
                 if l[0] == "taskSaw" and l[1] == s["tid"] and l[2] != sorted(want):
                     fails.append(f"task {s['tid']} sees resources {l[2]}; present when it was started: {sorted(want)}")
